@@ -12,6 +12,7 @@ CHECKS = {
     "batch_gosched_before_record": ["C06", "C07", "C08", "C09", "C11"],
     "store_getall_refactor": ["C13", "C14"],
     "flow_ctx_check_after_child": ["C03", "C04", "C05", "C10", "C18"],
+    "queue_capacity_larger": ["C12", "C08", "C06"],
     "store_compaction_locked": ["C13", "C14", "C15"],
     "pool_submit_fastpath": ["C12", "C08", "C06"],
     "batch_wait_timer": ["C20", "C11", "C07", "C02"],
